@@ -1188,7 +1188,7 @@ def A18_cli_wiring(repo, clause):
     for which, f, var in (("input", load, "inputpath"), ("output", save, "outputpath")):
         lits = None
         for n in fn.own_nodes():
-            if isinstance(n, ast.Compare) and isinstance(n.ops[0], ast.In) and var in ast.unparse(n.left) and isinstance(n.comparators[0], (ast.List, ast.Tuple, ast.Set)):
+            if isinstance(n, ast.Compare) and isinstance(n.ops[0], (ast.In, ast.NotIn)) and var in ast.unparse(n.left) and isinstance(n.comparators[0], (ast.List, ast.Tuple, ast.Set)):
                 lits = [e.value for e in n.comparators[0].elts if isinstance(e, ast.Constant)]
         dt = dispatch_types(f)
         ok = lits is not None and all(s.startswith(".") and s[1:] in dt for s in lits)
